@@ -21,7 +21,9 @@ func main() {
 	go func() {
 		io.Copy(os.Stdout, c)
 		os.Stdout.Close()
-		done <- struct{}{}
+		// the service hung up: a bridge (think `ssh host varlink bridge`) ends by itself then, whether or not its own
+		// stdin is still open; whatever it wrote to stdout before must still reach the parent
+		os.Exit(0)
 	}()
 	<-done
 	<-done
